@@ -42,6 +42,12 @@ Theorem molecules_section_exact : forall names, expand (group_counts names) = na
 Proof. exact group_counts_expand. Qed.
 Print Assumptions molecules_section_exact.
 
+(* ... and it is the run-length encoding of that sequence: no empty entry, and successive molecules of one type are
+   counted in one entry (neighbouring entries bear different names) *)
+Theorem molecules_section_compact : forall names, compactb (group_counts names) = true.
+Proof. exact group_counts_compact. Qed.
+Print Assumptions molecules_section_compact.
+
 (* Every molecule-type file is included exactly once. *)
 Theorem includes_exactly_once : forall names,
   NoDup (includes names) /\ forall n, In n (includes names) <-> In n names.
